@@ -530,6 +530,12 @@ fn kind_name(k: u8) -> &'static str {
 
 /// Full structural check of a database image.
 pub fn fsck(bytes: &[u8], pagesize: u64) -> Report {
+    fsck_len(bytes, pagesize, bytes.len() as u64)
+}
+
+/// As `fsck`, for an image of which only the prefix up to the high-water mark was read;
+/// `file_len` is the real length of the file.
+pub fn fsck_len(bytes: &[u8], pagesize: u64, file_len: u64) -> Report {
     let mut errors = Vec::new();
     let (meta, metas) = choose_meta(bytes, pagesize);
     let meta = match meta {
@@ -570,10 +576,10 @@ pub fn fsck(bytes: &[u8], pagesize: u64) -> Report {
             stats: Stats::default(),
         };
     }
-    if (bytes.len() as u64) < np.saturating_mul(pagesize) {
+    if file_len < np.saturating_mul(pagesize) || (bytes.len() as u64) < np.saturating_mul(pagesize).min(file_len) {
         errors.push(format!(
             "file length {} shorter than high-water mark {} pages × {}",
-            bytes.len(),
+            file_len,
             np,
             pagesize
         ));
